@@ -65,9 +65,9 @@ func ensureAccumulator(pk *gabikeys.PublicKey, witness *revocation.Witness) erro
 	// concurrently on a credential that was just read from storage)
 	nonrevCacheInit.Lock()
 	defer nonrevCacheInit.Unlock()
-	if witness.SignedAccumulator.Accumulator != nil {
-		return nil
-	}
+	// (UnmarshalVerify memoises per key and signed bytes: cheap when nothing changed, and not fooled by an
+	// accumulator that is left over from other bytes, e.g. after a newer state of the credential was
+	// read from storage into a variable that was in use)
 	_, err := witness.SignedAccumulator.UnmarshalVerify(pk)
 	return err
 }
